@@ -118,6 +118,23 @@ pub fn install_panic_hook() {
     }));
 }
 
+/// number of panics recorded so far (a mark for `discard_panics_since`)
+pub fn panic_mark() -> usize {
+    PANICS.lock().map(|p| p.len()).unwrap_or(0)
+}
+
+/// Forget the panics recorded after `mark`. Used around the drop of an embedded server's runtime, which
+/// stands for the death of the server process: a task that panics while its runtime is being torn down
+/// (e.g. a file write whose blocking pool is gone) has no counterpart in a process that simply exits.
+pub fn discard_panics_since(mark: usize) -> usize {
+    PANICS.lock().map(|mut p| {
+        let n = p.len().saturating_sub(mark);
+        let keep = mark.min(p.len());
+        p.truncate(keep);
+        n
+    }).unwrap_or(0)
+}
+
 pub fn take_panics() -> Vec<PanicRecord> {
     PANICS.lock().map(|mut p| std::mem::take(&mut *p)).unwrap_or_default()
 }
